@@ -197,17 +197,18 @@ class Structured(Generic[_ItemType]):
         depth-first iteration, however this is not guaranteed and should not
         be relied upon.
         """
-        for value in self._structure.values():
-            if isinstance(value, Structured):
-                yield from value._flatten()
-            elif isinstance(value, tuple):
-                for v in value:
-                    if isinstance(v, Structured):
-                        yield from v._flatten()
-                    else:
-                        yield v
+
+        def flatten_obj(obj: Any) -> Generator[_ItemType, None, None]:
+            if isinstance(obj, Structured):
+                yield from obj._flatten()
+            elif isinstance(obj, tuple):
+                for o in obj:
+                    yield from flatten_obj(o)
             else:
-                yield value
+                yield obj
+
+        for value in self._structure.values():
+            yield from flatten_obj(value)
 
     def _to_dict(self, recurse: bool = True) -> dict[Optional[str], Any]:
         """
